@@ -59,27 +59,55 @@ def join(toks):
     return "\n".join(out) + "\n"
 
 
-def mutants(text, work):
-    """[dict(op, i, expect, text, ctx)] for every single-token mutant of text"""
-    toks = tokenize(text)
+EXPRESS_INS = ["(", ")", ";", ":", ",", "'", "(*", "*)", "--", ".", "\\", "[", "]", "END_TYPE"]
+
+
+def edits(pieces, ins, work, key):
+    """TLC's single-edit mutants of a piece sequence: [dict(op, i, p, expect, seq)] with seq = list of spellings"""
     hs = {}
     d = mkdir(os.path.join(work, "tokmut"))
-    tp = os.path.join(d, "toks-%s.ndjson" % sha(text)[:10])
+    tp = os.path.join(d, "toks-%s.ndjson" % key)
+    ip = os.path.join(d, "ins-%s.ndjson" % key)
     with open(tp, "w") as f:
-        for k, s, u in toks:
+        for k, s, u in pieces:
             f.write(json.dumps({"k": k, "u": u, "h": hs.setdefault(s, len(hs) + 1)}) + "\n")
+    with open(ip, "w") as f:
+        for s in ins:
+            f.write(json.dumps({"h": hs.setdefault(s, len(hs) + 1)}) + "\n")
     got = []
-    r = tlc.run_tlc("TokMut", None, workers=2, timeout=600, env={"TOKS": tp}, on_case=got.append,
+    r = tlc.run_tlc("TokMut", None, workers=4, timeout=900, env={"TOKS": tp, "INS": ip}, on_case=got.append,
                     cfg_text="INIT Init\nNEXT Next\nINVARIANT Emit\nINVARIANT SaneInv\n")
     if r.rc != 0 or r.errors or r.violated or not got:
         raise InfraError("TokMut failed: rc=%s %s" % (r.rc, r.tail[-10:]))
     os.unlink(tp)
-    sp = [s for _, s, _ in toks]
+    os.unlink(ip)
+    sp = [s for _, s, _ in pieces]
+
+    def spell(x):
+        return sp[x - 1] if x > 0 else REPL[x] if x > -10 else ins[-x - 11]
     out = []
     for c in got:
-        seq = [sp[x - 1] if x > 0 else REPL[x] for x in c["toks"]]
-        i = c["i"]
-        ctxs = " ".join(sp[max(0, i - 3):i + 2])
-        out.append({"op": c["op"], "i": i, "expect": c["expect"], "text": join(seq), "ctx": ctxs, "tok": sp[i - 1]})
-    out.sort(key=lambda m: (m["op"], m["i"]))
+        e = c["edit"]
+        seq = sp[:e["at"] - 1] + [spell(x) for x in e["put"]] + sp[e["at"] - 1 + e["drop"]:]
+        out.append({"op": c["op"], "i": c["i"], "p": c["p"], "expect": c["expect"], "seq": seq})
+    out.sort(key=lambda m: (m["op"], m["i"], m["p"]))
+    return out, sp
+
+
+def mutants(text, work, with_ins=True):
+    """[dict(op, i, expect, text, ctx, tok)] for every single-token mutant of an EXPRESS text"""
+    toks = tokenize(text)
+    got, sp = edits(toks, EXPRESS_INS if with_ins else [], work, sha(text)[:10])
+    out = []
+    for m in got:
+        i = m["i"]
+        out.append({"op": m["op"] + ("_%d" % m["p"] if m["op"] == "ins" else ""), "i": i, "expect": m["expect"], "text": join(m["seq"]),
+                    "ctx": " ".join(sp[max(0, i - 3):i + 2]), "tok": sp[i - 1] if i <= len(sp) else ""})
     return out
+
+
+def char_mutants(text, start, ins, work):
+    """single-character edits of text[start:]: [(op, i, p, new text)]"""
+    pieces = [("op", ch, False) for ch in text[start:]]
+    got, sp = edits(pieces, ins, work, sha(text)[:10])
+    return [(m["op"], m["i"], m["p"], text[:start] + "".join(m["seq"])) for m in got]
